@@ -43,7 +43,7 @@ static void failing_query(Query *q) {
   else if (r < 9) { q->kind = 1; snprintf(q->s, sizeof q->s, "%s", BAD[rndint(3, 6)]); }
   else { q->kind = rndint(5, 6); q->ia[0] = (int[]){0, -3, 120, 4000}[rndint(0, 3)]; snprintf(q->s, sizeof q->s, "%s", BAD[rndint(0, 1)]); }
 }
-/* c17 <threads> <calls per thread> <pool size> [control | errors | files | family <first fn> <step>] */
+/* c17 <threads> <calls per thread> <pool size> [control | errors | files | groups | family <first fn> <step>] */
 int cmd_c17(int argc, char **argv) {
   int T = argc > 0 ? atoi(argv[0]) : 8; ncalls = argc > 1 ? atoi(argv[1]) : 1000; npool_q = argc > 2 ? atoi(argv[2]) : 400; control = argc > 3 && !strcmp(argv[3], "control");
   if (T > MAXT) T = MAXT;
@@ -53,8 +53,14 @@ int cmd_c17(int argc, char **argv) {
   int f_first = family ? atoi(argv[4]) : 0, f_step = family ? atoi(argv[5]) : nf + 1; long total = 0;
   /* "family" mode: one phase per API function (first, first+step, ...): every thread hammers the same function with a small pool of argument tuples,
    * half of the macro arguments taken from the two ends of the function's macro range (the grouped lines and other special cases live there) */
-  for (int fsel = f_first; fsel < (family ? nf : 1); fsel += f_step) {
+  /* "groups" mode: one phase per (line function, grouped-line macro 0..mhi): every thread is inside the same function with the same macro - the
+   * composite code paths (weighted means, sums over member lines) - and only the element differs between the calls */
+  int groups = argc > 3 && !strcmp(argv[3], "groups"); static int ph_fn[4096], ph_m[4096]; int nph = 0;
+  if (groups) { for (int f = 0; f < nf; f++) { const ApiFn *a = &API_TABLE[f]; if ((a->sig != SIG_II && a->sig != SIG_IID) || a->mhi < 0 || a->mlo > -100 || strstr(a->name, "Kissel")) continue; for (int m = 0; m <= a->mhi && nph < 4096; m++) { ph_fn[nph] = f; ph_m[nph++] = m; } } }
+  else for (int fsel = f_first; fsel < (family ? nf : 1) && nph < 4096; fsel += f_step) { ph_fn[nph] = fsel; ph_m[nph++] = 0; }
+  for (int ph = 0; ph < nph; ph++) { int fsel = ph_fn[ph];
   for (int i = 0; i < npool_q; i++) {
+    if (groups) { static const int ZG[] = {29, 50, 82, 92, 26, 47, 79, 64}; Query *q = &pool[i]; memset(q, 0, sizeof *q); q->kind = 0; q->fn = fsel; q->ia[0] = ZG[i % 8]; q->ia[1] = ph_m[ph]; q->da[0] = i < 8 ? 100.0 : 20.0; continue; }
     if (errors_only) failing_query(&pool[i]); else random_query(&pool[i]);
     if (files_only) { memset(&pool[i], 0, sizeof pool[i]); pool[i].kind = 14; pool[i].ia[0] = i; }      /* every thread reads the same crystal file into an array of its own */
     if (family) { Query *q = &pool[i]; const ApiFn *f = &API_TABLE[fsel]; int r = rndint(0, 2); q->kind = 0; q->fn = fsel; q->ia[0] = rndint(0, 11) ? rndint(1, 98) : rndint(-1, 121);
